@@ -103,3 +103,20 @@ Section Morph.
     induction P as [|r P IH]; simpl; auto. rewrite map_length, IH. reflexivity.
   Qed.
 End Morph.
+
+(* ---------- a concrete non-trivial instance (rank 2 in dimension 4, P = P4z / 4) ---------- *)
+Definition P4z : list (list gz) :=
+  [[(2, 0); (1, -1); (0, 1); (1, 0)];
+   [(1, 1); (2, 0); (0, -1); (1, 0)];
+   [(0, -1); (0, 1); (3, 0); (1, 0)];
+   [(1, 0); (1, 0); (1, 0); (1, 0)]].
+Definition xs4 : list Z := [0; 1; 2; 3].     (* x coordinates *)
+Definition ys4 : list Z := [0; 2; 1; 3].     (* y coordinates *)
+
+Lemma P4z_example :
+  gz_projb 4 4 P4z = true /\
+  crosshair_num P4z xs4 ys4 2 2 = Some [1; -1; -1; 1] /\
+  crosshair_num P4z ys4 xs4 2 2 = Some [-1; 1; 1; -1] /\      (* x <-> y: sign flips *)
+  crosshair_num P4z xs4 ys4 1 2 = Some [0; 0; 0; 0] /\        (* crosshair exactly on x_1 = 1: site 1 is NOT below *)
+  chern_num P4z xs4 ys4 = Some [-5; -1; 2; 4].
+Proof. vm_compute. repeat split. Qed.
